@@ -96,9 +96,9 @@ func WorkerMain(args []string) int {
 		out.Flush()
 		outMu.Unlock()
 	}
+	sigCounts := map[string]int64{}
 	rec := NewRec(tier, Seed())
 	rec.DeadlineUnix = deadlineUnix
-	sigCounts := map[string]int64{}
 	var cur int64 = -1
 	var curStart int64 // unix nanos when the current case began
 	var curCase atomic.Value
@@ -107,6 +107,9 @@ func WorkerMain(args []string) int {
 		for {
 			time.Sleep(time.Second)
 			st := atomic.LoadInt64(&curStart)
+			if hb := atomic.LoadInt64(&rec.Heartbeat); hb > st && st != 0 {
+				st = hb
+			}
 			if st != 0 && time.Now().UnixNano()-st > hangS*1e9 {
 				raw, _ := curCase.Load().(json.RawMessage)
 				emit(map[string]interface{}{"t": "hang", "idx": atomic.LoadInt64(&cur), "case": raw})
@@ -529,7 +532,9 @@ func CheckMain(id, tier string) int {
 		fmt.Println(l)
 	}
 	// evidence
-	exhaustive := !a.sum.Capped && a.sum.SigCounts["crash"] == 0 && a.sum.SigCounts["hang"] == 0 && a.sum.SigCounts["harness/worker-crash"] == 0 && a.sum.Cases == a.sum.Total
+	// a case whose inner exploration (choice lists / schedules) hit its cap was not covered completely
+	innerCapped := a.sum.Counters["capped_cases"] + a.sum.Counters["e2_capped_cases"]
+	exhaustive := innerCapped == 0 && !a.sum.Capped && a.sum.SigCounts["crash"] == 0 && a.sum.SigCounts["hang"] == 0 && a.sum.SigCounts["harness/worker-crash"] == 0 && a.sum.Cases == a.sum.Total
 	cov := map[string]interface{}{
 		"evaluations":                   a.sum.Evaluations,
 		"distinct_nontrivial":           a.sum.NonTrivial,
